@@ -18,6 +18,7 @@ that skrifa's `i32` API cannot hold; the corollaries state exact equality whenev
 result fits).  Helper lemmas: Lemmas/FtEq.lean.
 -/
 import FontVerif.Lemmas.FtEq
+import FontVerif.Model.Scale
 set_option linter.unusedVariables false
 set_option linter.unusedSimpArgs false
 set_option maxRecDepth 8000
@@ -401,5 +402,66 @@ theorem sround_then_round_eq (is45 : Bool) (sel d p ph t : Int)
 
 example : HintRound.superRound 16384 0x48 = some (64, 0, 32) := by decide
 example : HintRound.superRound 11585 0x9D = some (90, 22, 101) := by decide
+
+/-! ### unhinted scaling of a simple glyph (Model/Scale.lean) -/
+
+/-- one coordinate: skrifa's `coord * scale` with its own scale = FreeType's with FreeType's scale,
+for every i32 coordinate, ppem and units-per-em. -/
+theorem scale_coord_eq (c p u : Int) (hc : inI32 c) (hp : inI32 p) (hu : inI32 u) :
+    Fixed.mul c (Scale.skScale p u) = FtCalc.mulFix c (Scale.ftScale p u) := by
+  unfold Scale.skScale Scale.ftScale
+  rw [mulFix_wrap_right, ← divfix_eq p u hp hu]
+  have hd : inI32 (Fixed.div p u) := by
+    unfold Fixed.div; simp only []; unfold inI32 wrapI32; simp only []; split <;> split <;> omega
+  exact mulfix_eq c _ hc hd
+
+/-- the whole unhinted simple-glyph pipeline: for every glyph with i16 coordinates, i16 bearing and
+box, u16 advance, and every size whose scale is at most 64 pixels per font unit, skrifa produces
+exactly FreeType's outline points and advance. -/
+theorem scale_simple_eq (p u : Int) (g : Scale.Simple) (hp : inI32 p) (hu : inI32 u)
+    (hs : 0 ≤ Scale.skScale p u ∧ Scale.skScale p u ≤ 4194304)
+    (hpts : ∀ q ∈ g.pts, (-32768 ≤ q.1 ∧ q.1 ≤ 32767) ∧ (-32768 ≤ q.2 ∧ q.2 ≤ 32767))
+    (hx : -32768 ≤ g.xMin ∧ g.xMin ≤ 32767) (hl : -32768 ≤ g.lsb ∧ g.lsb ≤ 32767)
+    (ha : 0 ≤ g.adv ∧ g.adv ≤ 65535) :
+    Scale.skSimple (Scale.skScale p u) g = Scale.ftSimple (Scale.ftScale p u) g := by
+  unfold Scale.skSimple Scale.ftSimple
+  have i32 : ∀ c : Int, -131072 ≤ c ∧ c ≤ 131072 → inI32 c := by intro c h; unfold inI32; omega
+  have e2 : wrapI32 (g.xMin - g.lsb + g.adv) = g.xMin - g.lsb + g.adv := wI32 (by omega) (by omega)
+  have k1 := scale_coord_eq (g.xMin - g.lsb) p u (i32 _ (by omega)) hp hu
+  have k2 := scale_coord_eq (g.xMin - g.lsb + g.adv) p u (i32 _ (by omega)) hp hu
+  have b1 := mul_small (g.xMin - g.lsb) _ (by omega) hs
+  have b2 := mul_small (g.xMin - g.lsb + g.adv) _ (by omega) hs
+  simp only [e2]
+  rw [← k1, ← k2]
+  generalize hP1 : Fixed.mul (g.xMin - g.lsb) (Scale.skScale p u) = P1 at *
+  generalize hP2 : Fixed.mul (g.xMin - g.lsb + g.adv) (Scale.skScale p u) = P2 at *
+  have eadv : wrapI32 (P2 - P1) = FtCalc.subLong P2 P1 := by
+    unfold FtCalc.subLong; rw [wI32 (by omega) (by omega), wI64 (by omega) (by omega)]
+  have emap : (g.pts.map fun q => (Fixed.mul q.1 (Scale.skScale p u), Fixed.mul q.2 (Scale.skScale p u)))
+      = (g.pts.map fun q => (FtCalc.mulFix q.1 (Scale.ftScale p u), FtCalc.mulFix q.2 (Scale.ftScale p u))) := by
+    apply List.map_congr_left
+    intro q hq
+    have := hpts q hq
+    rw [scale_coord_eq q.1 p u (i32 _ (by omega)) hp hu, scale_coord_eq q.2 p u (i32 _ (by omega)) hp hu]
+  rw [eadv, ← emap]
+  congr 1
+  by_cases h0 : P1 = 0
+  · simp [h0]
+  · simp only [ne_eq, h0, not_false_eq_true, if_true, List.map_map]
+    apply List.map_congr_left
+    intro q hq
+    have hq' := hpts q hq
+    have bq := mul_small q.1 _ (by omega) hs
+    simp only [Function.comp]
+    unfold FtCalc.addLong
+    rw [wI32 (by omega) (by omega), wI64 (by omega) (by omega)]
+    congr 1
+
+-- 16 ppem at 1000 units per em: scale 0x10625; the hypotheses hold and the pipelines agree
+example : Scale.skScale 1024 1000 = 67109 ∧ Scale.ftScale 1024 1000 = 67109 := by decide
+example :
+    let g : Scale.Simple := { pts := [(100, 0), (700, -20), (350, 1462)], xMin := 100, lsb := 37, adv := 1139 }
+    Scale.skSimple (Scale.skScale 1024 1000) g = ([(37, 0), (652, -20), (293, 1497)], 1166)
+    ∧ Scale.ftSimple (Scale.ftScale 1024 1000) g = ([(37, 0), (652, -20), (293, 1497)], 1166) := by decide
 
 end FontVerif.C03
